@@ -146,10 +146,10 @@ class View:
                     self.transitions[key] = Transition(key, "@tgoal", [], gl, [])
 
 
-def _lower_index(items, name_of, what):
+def _lower_index(items, name_of, what, norm=str.lower):
     idx = {}
     for it in items:
-        k = name_of(it).lower()
+        k = norm(name_of(it))
         if k in idx:
             raise Mismatch(f"ambiguous-{what}-names", f"two {what}s of the second problem are named {k!r} up to case")
         idx[k] = it
@@ -169,16 +169,17 @@ def _kind_of_type(tp):
 class Corr:
     """Correspondence between A and B (raises Mismatch when the static structure already differs)."""
 
-    def __init__(self, A, B, nm=None):
+    def __init__(self, A, B, nm=None, case_sensitive=False):
         self.A, self.B, self.nm = A, B, nm or NameMap()
         nm = self.nm
+        norm = (lambda x: x) if case_sensitive else str.lower
         self.VA, self.VB = View(A), View(B)
         # objects
-        bobj = _lower_index(B.all_objects, lambda o: o.name, "object")
+        bobj = _lower_index(B.all_objects, lambda o: o.name, "object", norm)
         self.obj = {}  # A object name -> B object name
         hit = set()
         for o in A.all_objects:
-            bn = nm.object(o).lower()
+            bn = norm(nm.object(o))
             if bn not in bobj:
                 raise Mismatch("object-missing", f"object {o.name!r} (expected name {bn!r}) does not exist in the second problem", expected=bn)
             self.obj[o.name] = bobj[bn].name
@@ -189,9 +190,9 @@ class Corr:
         if len(set(self.obj.values())) != len(self.obj):
             raise Mismatch("object-map-not-injective", "two objects are mapped to one name")
         # types: same extension
-        btypes = _lower_index(B.user_types, lambda t: t.name, "type")
+        btypes = _lower_index(B.user_types, lambda t: t.name, "type", norm)
         for t in A.user_types:
-            bn = nm.type(t).lower()
+            bn = norm(nm.type(t))
             ext_a = sorted(self.obj[o] for o in objects_of(A, t))
             if bn not in btypes:
                 raise Mismatch("type-missing", f"type {t.name!r} (expected name {bn!r}) does not exist in the second problem")
@@ -199,10 +200,10 @@ class Corr:
             if ext_a != ext_b:
                 raise Mismatch("type-extension", f"objects of type {t.name!r}: {ext_a} vs {ext_b} in the second problem", expected=ext_a, observed=ext_b)
         # fluents
-        bfl = _lower_index(B.fluents, lambda f: f.name, "fluent")
+        bfl = _lower_index(B.fluents, lambda f: f.name, "fluent", norm)
         self.fl = {}  # A fluent name -> B fluent
         for f in A.fluents:
-            bn = nm.fluent(f).lower()
+            bn = norm(nm.fluent(f))
             if bn not in bfl:
                 raise Mismatch("fluent-missing", f"fluent {f.name!r} (expected name {bn!r}) does not exist in the second problem")
             g = bfl[bn]
@@ -213,13 +214,13 @@ class Corr:
             for p, q in zip(f.signature, g.signature):
                 self._same_domain(p.type, q.type, f"parameter {p.name} of fluent {f.name}")
             self.fl[f.name] = g
-        self.extra_fluents = sorted(set(bfl) - {nm.fluent(f).lower() for f in A.fluents})
+        self.extra_fluents = sorted(set(bfl) - {norm(nm.fluent(f)) for f in A.fluents})
         # actions
-        bact = _lower_index(B.actions, lambda a: a.name, "action")
+        bact = _lower_index(B.actions, lambda a: a.name, "action", norm)
         self.act = {}  # A action name -> B action name
         self.missing_actions = []
         for a in A.actions:
-            bn = nm.action(a).lower()
+            bn = norm(nm.action(a))
             if bn not in bact:
                 self.missing_actions.append(a.name)
                 continue
@@ -231,7 +232,7 @@ class Corr:
                 raise Mismatch("action-arity", f"action {a.name!r}: {len(a.parameters)} vs {len(b.parameters)} parameters")
             for p, q in zip(a.parameters, b.parameters):
                 self._same_domain(p.type, q.type, f"parameter {p.name} of action {a.name}")
-        extra = sorted(set(bact) - {nm.action(a).lower() for a in A.actions})
+        extra = sorted(set(bact) - {norm(nm.action(a)) for a in A.actions})
         if extra:
             raise Mismatch("action-extra", f"the second problem has actions without counterpart: {extra}")
         self.ract = {v: k for k, v in self.act.items()}
@@ -328,9 +329,9 @@ class Stats:
         self.counters[k] = self.counters.get(k, 0) + n
 
 
-def bisimulate(A, B, nm=None, depth=3, max_states=30, max_inst=24, corr=None):
+def bisimulate(A, B, nm=None, depth=3, max_states=30, max_inst=24, corr=None, case_sensitive=False):
     """Returns (Stats, corr). Raises Mismatch on the first behavioural difference, Unsupported if the oracle cannot judge."""
-    c = corr or Corr(A, B, nm)
+    c = corr or Corr(A, B, nm, case_sensitive)
     st = Stats()
     VA, VB = c.VA, c.VB
     # transitions: union of keys
